@@ -114,7 +114,11 @@ ORACLES = {"xmd": o_xmd, "h2f": o_h2f}
 
 
 def s_dst():
-    return st.one_of(sized_binary((0, 1, 2, 16, 43, 254, 255), 255),
+    # tags whose last byte already looks like the length octet that DST_prime appends (an "append the
+    # length unless it is there" helper would be wrong exactly on these)
+    selfdescribing = st.binary(min_size=0, max_size=60).map(
+        lambda d: [d + bytes([len(d)]), d + bytes([(len(d) + 1) % 256]), d + b"\x00"][len(d) % 3])
+    return st.one_of(sized_binary((0, 1, 2, 16, 43, 254, 255), 255), selfdescribing,
                      st.sampled_from([b"QUUX-V01-CS02-with-expander-SHA256-128",
                                       b"BLS_SIG_BLS12381G2_XMD:SHA-256_SSWU_RO_POP_"])).map(hx)
 
